@@ -21,6 +21,7 @@ def specStep (ttl : Nat → Nat) (s : SpecSt) : Ev → SpecSt
   | .exh _ _ => s
   | .nop _ => s
   | .err _ => s
+  | .swp _ => ⟨sweep s.store s.now, s.now, s.good⟩
   | .dead _ _ _ => s
   | .rel _ kind id => ⟨erase s.store (kind, id), s.now, s.good⟩
   | .relo _ kind id => ⟨erase s.store (kind, id), s.now, s.good⟩
